@@ -1,6 +1,81 @@
-(* Runner for property C04: wire arguments -> model -> wire result. Filled in by the C04 model. *)
+(* Runner for property C04 (non-numeric half): wire arguments -> model -> wire result.  Same operation
+   names as harness/c04norm.go:
+     c04 norm_code x<s> | norm_alnum x<s> | norm_num x<s>   -> x<normalised>
+     c04 code_valid x<s> | key_valid x<s>                   -> 0/1
+     c04 addr_trim x<s>                                     -> ( x<TrimSpace s> x<state> x<post code> )
+     c04 notes ( ( match x<extcode> hasnote x<key> x<code> x<src> x<text> x<ext> ) ... )
+               ( ( 1 x<key> x<code> x<src> x<text> x<meta> x<ext> ) | ( 0 ) ... )
+                                                            -> ( ok <notes after one pass> <after two> )
+     c04 notes_fixed ...                                    -> the same with the repaired ScenarioSet.Notes()
+     c04 marshal_map ( ( x<k> x<v> ) ... )                  -> x<json>
+     c04 parse_map x<json>                                  -> ( ok ( x<k> x<v> ) ... ) | ( err parse )
+     c04 date_parse x<text>                                 -> ( ok y m d ) | ( err parse )
+     c04 date_print y m d                                   -> x<text>
+   (the recalculation figures of the numeric half run under c17 recalc). *)
 From Coq Require Import ZArith List String Bool.
-From Verif Require Import Base.Wire.
+From Verif Require Import Base.Wire Defs.DefTypes Fix.CodeNorm Fix.ScenarioNotes Fix.MapJson Fix.DateText.
 Import ListNotations.
 
-Definition run_c04 (args : list V) : list V := [verr "not-implemented"].
+Definition dec_scenario (v : V) : scenario :=
+  match vl v with
+  | m :: ec :: hn :: k :: c :: s :: t :: e :: _ =>
+    mkSc (vbool m) (vs_ ec) (if vbool hn then Some (mkSN (vs_ k) (vs_ c) (vs_ s) (vs_ t) (vs_ e)) else None)
+  | _ => mkSc false [] None
+  end.
+
+Definition dec_note (v : V) : option note :=
+  match vl v with
+  | f :: k :: c :: s :: t :: m :: e :: _ => if vbool f then Some (mkNote (vs_ k) (vs_ c) (vs_ s) (vs_ t) (vs_ m) (vs_ e)) else None
+  | _ => None
+  end.
+
+Definition enc_note (n : option note) : V :=
+  match n with
+  | None => VL [VI 0]
+  | Some x => VL [VI 1; VS (n_key x); VS (n_code x); VS (n_src x); VS (n_text x); VS (n_meta x); VS (n_ext x)]
+  end.
+
+Definition run_notes (prep : list scenario -> list (option note) -> list (option note)) (a b : V) : list V :=
+  let ss := map dec_scenario (vl a) in
+  let ns := map dec_note (vl b) in
+  let p1 := prep ss ns in
+  [VL [VS (bs "ok"); VL (map enc_note p1); VL (map enc_note (prep ss p1))]].
+
+Definition dec_pair (v : V) : bytes * bytes :=
+  match vl v with k :: x :: _ => (vs_ k, vs_ x) | _ => ([], []) end.
+
+Definition run_c04 (args : list V) : list V :=
+  match args with
+  | o :: rest =>
+    let op := opname o in
+    let a1 := hd (VS []) rest in
+    if String.eqb op "norm_code" then [VS (normalize_code (vs_ a1))]
+    else if String.eqb op "norm_alnum" then [VS (normalize_alnum_code (vs_ a1))]
+    else if String.eqb op "norm_num" then [VS (normalize_num_code (vs_ a1))]
+    else if String.eqb op "code_valid" then [VB (code_valid (vs_ a1))]
+    else if String.eqb op "key_valid" then [VB (key_valid (vs_ a1))]
+    else if String.eqb op "addr_trim" then
+      [VL [VS (trim_space (vs_ a1)); VS (normalize_alnum_code (vs_ a1)); VS (normalize_code (vs_ a1))]]
+    else if String.eqb op "notes" then run_notes prepare_notes a1 (hd (VL []) (tl rest))
+    else if String.eqb op "notes_fixed" then run_notes prepare_notes_fixed a1 (hd (VL []) (tl rest))
+    else if String.eqb op "marshal_map" then [VS (marshal_map (map dec_pair (vl a1)))]
+    else if String.eqb op "parse_map" then
+      match unmarshal_map (vs_ a1) with
+      | Some l => [VL (VS (bs "ok") :: map (fun kv => VL [VS (fst kv); VS (snd kv)]) l)]
+      | None => [verr "parse"]
+      end
+    else if String.eqb op "date_parse" then
+      match parse_date (vs_ a1) with
+      | Some d => [VL [VS (bs "ok"); VI (d_year d); VI (d_month d); VI (d_day d)]]
+      | None => [verr "parse"]
+      end
+    else if String.eqb op "date_print" then
+      match rest with
+      | y :: m :: d :: _ =>
+        let dt := mkDate (vz y) (vz m) (vz d) in
+        if date_nonneg dt then [VS (print_date dt)] else [verr "domain"]
+      | _ => [verr "badargs"]
+      end
+    else [verr "unknown-c04-op"]
+  | [] => [verr "unknown-c04-op"]
+  end.
